@@ -81,6 +81,22 @@ def run(ctx):
         else:
             r1.violation("%s:attr.type" % f.name, "stored type is not the caller's type: %s" % (f.show(e) if e else "?"), loc=f.loc(at))
 
+    # stored copies are never written through afterwards
+    from .. import bounds as B2
+    for f in P.fns_in("core/xcm_attr_map.c"):
+        for c in f.calls():
+            n = f.nodes[c]
+            nm = n.get("callee")
+            if nm in B2.SINKS:
+                di = B2.SINKS[nm][0]
+                if di < len(n["args"]):
+                    d = n["args"][di]
+                    fl = f.fields_of(d)
+                    if fl and fl[-1] in ("value", "name") and any(m.get("record") == "attr" for x in f.walk(d) for m in [f.nodes[x]] if m["k"] == "member"):
+                        r1.violation("%s:%s(attr.%s)" % (f.name, nm, fl[-1]), "a stored %s is modified in place: the entry no longer is a copy of "
+                                     "what one add supplied (length and bytes can disagree)" % fl[-1], loc=f.loc(c))
+    r1.ok("no function writes through attr.name / attr.value after creation", "sink scan of xcm_attr_map.c")
+
     # ---------------------------------------------------------------- R2
     r2 = ctx.rule("C19.R2", "lookups return an entry only on the equal edge of the name (and, typed, the type) comparison")
     for name, typed in (("lookup_attr", False), ("lookup_attr_with_type", True)):
@@ -154,6 +170,24 @@ def run(ctx):
             r3.violation("xcm_attr_map_add:create-args", "attr_create gets %s instead of the caller's (name, type, value, len)" % a, loc=f.file)
         else:
             r3.ok("attr_create receives the caller's (name, type, value, len)")
+    # every path of add creates a fresh entry and links it
+    class AddPath(C.Rule):
+        def initial(self, fn):
+            return (False, False)
+
+        def elem(self, fn, st, nid, blk, idx):
+            n = fn.nodes[nid]
+            if n["k"] == "call" and n.get("callee") == "attr_create":
+                return (True, st[1])
+            if n["k"] == "call" and n.get("callee") == "xcm_attr_map_del":
+                return (st[0], True)
+            return None
+
+        def at_exit(self, fn, st, blk):
+            if not (st[0] and st[1]):
+                r3.violation("xcm_attr_map_add:path-without-replace", "a path of add returns without deleting the old entry and creating a "
+                             "fresh copy (created=%s, deleted=%s)" % st, loc=fn.file)
+    C.explore(f, AddPath())
     g = P.fn("copy_attr_cb", "xcm_attr_map.c")
     r3.instance("copy_attr_cb")
     ok = False
@@ -198,11 +232,21 @@ def run(ctx):
             fs = [s for s, lab in C.edges(e_, b) if returns_const(e_, s, 0)]
             if not fs:
                 continue
+            # the false-returning edge must be the *disequality* edge
+            fl = [lab for s, lab in C.edges(e_, b) if returns_const(e_, s, 0)]
+            diseq = (op == "!=" and "T" in fl) or (op == "==" and "F" in fl)
             if "size" in ls and "size" in rs and op in ("!=", "=="):
-                atoms.add("count")
+                if diseq:
+                    atoms.add("count")
+                else:
+                    r3.violation("xcm_attr_map_equal:count-op", "entry counts are not compared for inequality", loc=e_.loc(b.term["cond"]))
             if "value_len" in ls and "value_len" in rs:
-                atoms.add("length")
-            if "memcmp" in ls:
+                if diseq:
+                    atoms.add("length")
+                else:
+                    r3.violation("xcm_attr_map_equal:length-op", "value lengths are compared with '%s' instead of for inequality: a value that is a "
+                                 "prefix of the other compares equal" % op, loc=e_.loc(b.term["cond"]))
+            if "memcmp" in ls and diseq:
                 m = e_.sn(l)
                 if m["k"] == "call" and len(m["args"]) == 3 and "value_len" in e_.show(m["args"][2]) and \
                         e_.sn(m["args"][0]).get("field") == "value" and e_.sn(m["args"][1]).get("field") == "value":
